@@ -693,6 +693,12 @@ func positiveOf(cnd string) (string, bool) {
 		if ps := splitTopStr(in, " != "); len(ps) == 2 && !strings.Contains(in, " && ") && !strings.Contains(in, " || ") {
 			return "(" + ps[0] + " == " + ps[1] + ")", true
 		}
+		// the condition of a two-armed conditional is never >= or <= (integers): the strict comparison it negates
+		for _, pr := range [][2]string{{" >= ", " < "}, {" <= ", " > "}} {
+			if ps := splitTopStr(in, pr[0]); len(ps) == 2 && !strings.Contains(in, " && ") && !strings.Contains(in, " || ") && (orderedAreIntegers || integerOperand(ps[0]) || integerOperand(ps[1])) {
+				return "(" + ps[0] + pr[1] + ps[1] + ")", true
+			}
+		}
 		// the condition of a conditional is never a disjunction: (A || B) is the negation of (not(A) && not(B))
 		if ps := splitTopStr(in, " || "); len(ps) >= 2 {
 			for k := range ps {
